@@ -22,6 +22,9 @@ type c15Case struct {
 	// Tail: 0 none; 1 the dump is followed by a goroutine with a malformed frame (the snapshot
 	// is returned together with a parse error); 2 the reader fails after the dump.
 	Tail int
+	// Fix: some frames lie in the fixture source tree and the scan runs with path guessing and
+	// source analysis on (lengths and capacities are then decoded from words that may recur).
+	Fix bool `json:",omitempty"`
 }
 
 type argOcc struct {
@@ -161,7 +164,22 @@ func (f *failAfter) Read(p []byte) (int, error) {
 	return n, err
 }
 
+func (c *c15Case) opts(naming bool) *stack.Opts {
+	if c.Fix {
+		return &stack.Opts{NameArguments: naming, GuessPaths: true, AnalyzeSources: true}
+	}
+	return &stack.Opts{NameArguments: naming}
+}
+
 func c15Scan(c *c15Case, naming bool) (*stack.Snapshot, error) {
+	if c.Fix {
+		x := bytes.ReplaceAll(c.D.Print(), []byte("@FIX@"), []byte(fixtureDir()))
+		snap, _, err := stack.ScanSnapshot(bytes.NewReader(x), io.Discard, c.opts(naming))
+		if snap == nil || (err != nil && err != io.EOF) {
+			return nil, fmt.Errorf("HARNESS: fixture dump does not parse: %v", err)
+		}
+		return snap, nil
+	}
 	if c.Race != nil {
 		snap, err := scanAloneOpts(c.Race.Print(), &stack.Opts{NameArguments: naming})
 		if snap == nil {
@@ -214,6 +232,17 @@ func c15Oracle(c c15Case) error {
 	}
 	erased := cloneSnapshot(on)
 	eraseNames(erased.Goroutines)
+	if c.Fix {
+		// the typed rendering embeds the pseudo-names ("string(#1, len=3)"): it is derived
+		// from the names and compared no further here (C19 judges it)
+		for _, gs := range [][]*stack.Goroutine{erased.Goroutines, off.Goroutines} {
+			for _, g := range gs {
+				for ci := range g.Stack.Calls {
+					g.Stack.Calls[ci].Args.Processed = nil
+				}
+			}
+		}
+	}
 	if !reflect.DeepEqual(erased.Goroutines, off.Goroutines) {
 		return fmt.Errorf("naming changed something other than the names")
 	}
@@ -298,6 +327,21 @@ var c15 = Check[c15Case]{
 		c := c15Case{D: genPointerDump(t)}
 		if oneIn(t, 4, "errorTail") {
 			c.Tail = rapid.IntRange(1, 2).Draw(t, "tail")
+		} else if oneIn(t, 3, "sourceAnalysis") {
+			// F1(a int, b string, c []byte, ...) of the fixture: the words after the first are a
+			// string pointer and length, a slice pointer, length and capacity
+			c.Fix = true
+			for gi := range c.D.Gs {
+				for fi := range c.D.Gs[gi].Frames {
+					if rapid.Bool().Draw(t, "fixFrame") {
+						f := &c.D.Gs[gi].Frames[fi]
+						f.Pkg, f.Name, f.File, f.Line = "main", "F1", "@FIX@/main.go", 6
+						for len(f.Args.Items) < 6 {
+							f.Args.Items = append(f.Args.Items, ArgM{Val: rapid.SampledFrom([]uint64{0x100000, 0x100000, 0xc000100000, 3, 0x200000}).Draw(t, "fixWord")})
+						}
+					}
+				}
+			}
 		}
 		return c
 	},
@@ -328,7 +372,10 @@ var c15 = Check[c15Case]{
 		if c.Tail != 0 {
 			cl = append(cl, "snapshot_returned_with_error")
 		}
-		return Obs{Nontrivial: nt, Digest: digestBytes(c.input(), []byte{byte(c.Tail)}), Classes: cl, Sample: quoteShort(truncBytes(c.input(), 900))}
+		if c.Fix {
+			cl = append(cl, "source_analysis_on")
+		}
+		return Obs{Nontrivial: nt, Digest: digestBytes(c.input(), []byte{byte(c.Tail), b2b(c.Fix)}), Classes: cl, Sample: quoteShort(truncBytes(c.input(), 900))}
 	},
 }
 
